@@ -83,7 +83,7 @@ theorem assignAll_batch (hρ : rk = true → ∀ p, ρ p = .ref p) {h : List HOb
 end
 
 section
-variable {mc : MCfg} {hook : Hook} {c : ECfg}
+variable {mc : MCfg} {hook : Hook} {c : ECfg} {σ : Type} {I : σ → DState → Prop}
 
 def DictTop (cfg : Cfg) (kvs0 : List (PyObj × PyObj)) (st : DState) : Prop :=
   ∃ id s0 es0, st.stack = .href id :: s0 ∧ st.heap[id]? = some { kind := dictKind cfg, kvs := es0 } ∧
@@ -121,16 +121,18 @@ theorem dict_assign_core (st st1 : DState) (id : Nat) (es0 : Entries) (kvs0 kvsg
   · exact assignAll_batch (mc := mc) (ρ := _root_.id) (rk := false) (fun h => by cases h) _ es0 es1 hkeys hrep
   · exact RepGPairs.congr mc.cfg (AgreeFrom.set _ id _ (Nat.lt_succ_self id)) (Nat.le_refl _) _ _ hall
 
-theorem runs_dictGroup (kvs0 : List (PyObj × PyObj)) (g : Grp (PyObj × PyObj))
-    (hf : FragsGN mc hook c (g.items.map (·.1)) (g.items.map fun x => [x.2.1, x.2.2]))
+theorem runs_dictGroup (hI : MemoOnly I) (kvs0 : List (PyObj × PyObj)) (g : Grp (PyObj × PyObj)) {s s' : σ}
+    (hf : FragsGN mc hook c I (g.items.map (·.1)) (g.items.map fun x => [x.2.1, x.2.2]) s s')
     (hkeys : keysOK mc.cfg false (goOfPairs (kvs0 ++ g.items.map (·.2))) = true) :
-    RunsP mc hook c (encGrp 115 117 g) (DictTop mc.cfg kvs0) (DictQ mc.cfg kvs0 (g.items.map (·.2))) := by
+    RunsP mc hook c (encGrp 115 117 g) (fun st => I s st ∧ DictTop mc.cfg kvs0 st)
+      (fun st st' => I s' st' ∧ DictQ mc.cfg kvs0 (g.items.map (·.2)) st st') := by
   cases g with
   | single x =>
     simp only [Grp.items, List.map_cons, List.map_nil, FragsGN] at hf hkeys
+    obtain ⟨s1, hf1, rfl⟩ := hf
     simp only [encGrp, Grp.items, List.map_cons, List.map_nil]
-    refine RunsP.snoc (RunsP.weaken hf.1 (fun _ _ => trivial) (fun _ _ _ _ q => q)) (parses_op 115 .setitem rfl parseArg_115) ?_
-    intro pos st st' ⟨id, s0, es0, hs, hh, hr0⟩ _ ⟨rs, hst, hr, hk⟩
+    refine RunsP.snoc (RunsP.weaken hf1 (fun _ h => h.1) (fun _ _ _ _ q => q)) (parses_op 115 .setitem rfl parseArg_115) ?_
+    intro pos st st' ⟨_, id, s0, es0, hs, hh, hr0⟩ _ ⟨hj, rs, hst, hr, hk⟩
     have hr' : RepGList mc.cfg st.heap.length st'.heap rs (flatPy [x.2]) := by simpa [flatPy] using hr
     obtain ⟨es1, hrs, hh1, hass, hrep⟩ := dict_assign_core st st' id es0 kvs0 [x.2] rs hh hr0 hr' hk hkeys
     obtain ⟨rk, rv, rfl⟩ : ∃ rk rv, es1 = [(rk, rv)] := by
@@ -150,7 +152,8 @@ theorem runs_dictGroup (kvs0 : List (PyObj × PyObj)) (g : Grp (PyObj × PyObj))
       | none => rw [ht] at hass; simp at hass
       | some es' => rw [ht] at hass; simpa [assignAll] using hass
     have hlt : id < st'.heap.length := getElem?_lt_of_some hh1
-    refine ⟨heapSet { st' with stack := .href id :: s0 } id { kind := dictKind mc.cfg, kvs := es0 ++ [(rk, rv)] }, ?_, rfl, ?_⟩
+    refine ⟨heapSet { st' with stack := .href id :: s0 } id { kind := dictKind mc.cfg, kvs := es0 ++ [(rk, rv)] }, ?_, rfl,
+      hI _ st' _ rfl hj, ?_⟩
     · simp only [exec, xpop, hst', bind, Except.bind, userOK_nm hmk, userOK_nm hmv, pure, Except.pure]
       simp [hh1, dictKind_not_list, hta, heapSet]
     · intro id' s0' es0' hs' hh' _
@@ -172,15 +175,14 @@ theorem runs_dictGroup (kvs0 : List (PyObj × PyObj)) (g : Grp (PyObj × PyObj))
     simp only [Grp.items] at hf hkeys ⊢
     have hfl := FragsGN.flatten hf
     rw [flatten_map_pair] at hfl
-    have hm : RunsP mc hook c (40 :: (xs.map (·.1)).flatten) (fun _ => True) (fun st st' => ∃ rs, st'.stack = rs.reverse ++ .mark :: st.stack ∧
-        RepGList mc.cfg st.heap.length st'.heap rs (flatPy (xs.map (·.2))) ∧ KeepsH st st') := RunsP.mark_then hfl
     show RunsP mc hook c ((40 :: (xs.map (·.1)).flatten) ++ [117]) _ _
-    refine RunsP.snoc (RunsP.weaken hm (fun _ _ => trivial) (fun _ _ _ _ q => q)) (parses_op 117 .setitems rfl parseArg_117) ?_
-    intro pos st st' ⟨id, s0, es0, hs, hh, hr0⟩ _ ⟨rs, hst, hr, hk⟩
+    refine RunsP.snoc (RunsP.weaken (PushesGN.marked hI hfl) (fun _ h => h.1) (fun _ _ _ _ q => q)) (parses_op 117 .setitems rfl parseArg_117) ?_
+    intro pos st st' ⟨_, id, s0, es0, hs, hh, hr0⟩ _ ⟨hj, rs, hst, hr, hk⟩
     obtain ⟨es1, hrs, hh1, hass, hrep⟩ := dict_assign_core st st' id es0 kvs0 (xs.map (·.2)) rs hh hr0 hr hk hkeys
     have hst' : st'.stack = rs.reverse ++ .mark :: .href id :: s0 := by rw [hst, hs]
     have hlt : id < st'.heap.length := getElem?_lt_of_some hh1
-    refine ⟨heapSet { st' with stack := .href id :: s0 } id { kind := dictKind mc.cfg, kvs := es0 ++ es1 }, ?_, rfl, ?_⟩
+    refine ⟨heapSet { st' with stack := .href id :: s0 } id { kind := dictKind mc.cfg, kvs := es0 ++ es1 }, ?_, rfl,
+      hI _ st' _ rfl hj, ?_⟩
     · have hsp : splitAtMark st'.stack = some (rs.reverse, .href id :: s0) := by
         rw [hst']
         exact splitAtMark_append rs.reverse _ (fun r hr' => hr.no_mark r (by simpa using hr'))
@@ -203,29 +205,36 @@ theorem runs_dictGroup (kvs0 : List (PyObj × PyObj)) (g : Grp (PyObj × PyObj))
         rw [List.getElem?_set_ne (Ne.symm hne)]
         exact hk.2 i (Nat.zero_le _) hi
 
-theorem runs_dictGroups : (gs : List (Grp (PyObj × PyObj))) → (kvs0 : List (PyObj × PyObj)) →
-    FragsGN mc hook c ((grpItems gs).map (·.1)) ((grpItems gs).map fun x => [x.2.1, x.2.2]) →
+theorem runs_dictGroups (hI : MemoOnly I) : (gs : List (Grp (PyObj × PyObj))) → (kvs0 : List (PyObj × PyObj)) → {s s' : σ} →
+    FragsGN mc hook c I ((grpItems gs).map (·.1)) ((grpItems gs).map fun x => [x.2.1, x.2.2]) s s' →
     keysOK mc.cfg false (goOfPairs (kvs0 ++ (grpItems gs).map (·.2))) = true →
-    RunsP mc hook c (encGrps 115 117 gs) (DictTop mc.cfg kvs0) (DictQ mc.cfg kvs0 ((grpItems gs).map (·.2)))
-  | [], kvs0, _, _ => by
+    RunsP mc hook c (encGrps 115 117 gs) (fun st => I s st ∧ DictTop mc.cfg kvs0 st)
+      (fun st st' => I s' st' ∧ DictQ mc.cfg kvs0 ((grpItems gs).map (·.2)) st st')
+  | [], kvs0, s, _, hf, _ => by
+    simp only [grpItems_nil, List.map_nil, FragsGN] at hf
+    subst hf
     refine RunsP.weaken RunsP.nil (fun _ h => h) ?_
-    intro st st' _ _ e id s0 es0 hs hh hr
+    intro st st' hp _ e
     subst e
+    refine ⟨hp.1, ?_⟩
+    intro id s0 es0 hs hh hr
     exact ⟨[], hs, by simpa using hh, by simpa using hr, Nat.le_refl _, fun _ _ _ => rfl⟩
-  | g :: gs, kvs0, hf, hkeys => by
+  | g :: gs, kvs0, s, s', hf, hkeys => by
     simp only [grpItems_cons, List.map_append] at hf hkeys ⊢
-    obtain ⟨h1, h2⟩ := FragsGN.append_inv (by simp) hf
+    obtain ⟨sm, h1, h2⟩ := FragsGN.append_inv (by simp) hf
     rw [encGrps_cons]
     have hk1 : keysOK mc.cfg false (goOfPairs (kvs0 ++ g.items.map (·.2))) = true := by
       rw [← List.append_assoc, goOfPairs_append] at hkeys
       exact keysOK_prefix _ _ _ _ hkeys
     have hk2 : keysOK mc.cfg false (goOfPairs ((kvs0 ++ g.items.map (·.2)) ++ (grpItems gs).map (·.2))) = true := by
       rw [List.append_assoc]; exact hkeys
-    refine RunsP.weaken (RunsP.seq (runs_dictGroup kvs0 g h1 hk1) (runs_dictGroups gs (kvs0 ++ g.items.map (·.2)) h2 hk2) ?_) (fun _ h => h) ?_
-    · intro st st1 ⟨id, s0, es0, hs, hh, hr⟩ _ q
+    refine RunsP.weaken (RunsP.seq (runs_dictGroup hI kvs0 g h1 hk1) (runs_dictGroups hI gs (kvs0 ++ g.items.map (·.2)) h2 hk2) ?_) (fun _ h => h) ?_
+    · intro st st1 ⟨_, id, s0, es0, hs, hh, hr⟩ _ ⟨hj, q⟩
       obtain ⟨es1, hs1, hh1, hr1, _⟩ := q id s0 es0 hs hh hr
-      exact ⟨id, s0, es0 ++ es1, hs1, hh1, hr1⟩
-    · intro st st2 _ _ ⟨st1, _, q1, q2⟩ id s0 es0 hs hh hr
+      exact ⟨hj, id, s0, es0 ++ es1, hs1, hh1, hr1⟩
+    · intro st st2 _ _ ⟨st1, _, ⟨_, q1⟩, hj2, q2⟩
+      refine ⟨hj2, ?_⟩
+      intro id s0 es0 hs hh hr
       obtain ⟨es1, hs1, hh1, hr1, hl1, ho1⟩ := q1 id s0 es0 hs hh hr
       obtain ⟨es2, hs2, hh2, hr2, hl2, ho2⟩ := q2 id s0 (es0 ++ es1) hs1 hh1 hr1
       refine ⟨es1 ++ es2, hs2, by simpa [List.append_assoc] using hh2, by simpa [List.append_assoc] using hr2, Nat.le_trans hl1 hl2, ?_⟩
